@@ -255,11 +255,13 @@ def run(tier, seed, rep):
                   sig=lambda e: (e["call"], e["step"], tuple(e["history"][:e["step"] - 1])[-1:] if e["step"] > 1 else (), e["seed"][:12]))
     return rep.finish(rule=f"{len(names)} public calls ({sum(1 for n in names if table[n][0] == 'Q')} queries, "
                            f"{sum(1 for n in names if table[n][0] == 'E')} editors) on one shared object: the behaviours "
-                           "emitted by TLC from MC_Session (16 seed annotations x 12 calls ^ 3; quick: 600 sampled); ordered pairs "
-                           "(thorough: all pairs x 4 seed annotations; quick: every first call x 14 sampled second calls x 2 "
-                           "seeds) and random triples; every step logs the projected state of the object, the auxiliary "
-                           "containers and process-wide state, the result, the result on a fresh object and the state after "
-                           "editing the result")
+                           "emitted by TLC from MC_Session (16 seed annotations x 12 calls ^ 3; quick: 600 sampled); the same "
+                           "query before and after any other call [q, x, q] (thorough: all; quick: 40 x 12 sampled); ordered pairs "
+                           "(thorough: all pairs x 5 seed annotations; quick: every first call x 10 sampled second calls x 3 "
+                           "seeds) and random triples; every step logs the projected state of the object (incl. its own "
+                           "serialisation), the auxiliary containers and process-wide state (RNG, a digest of every vocabulary "
+                           "entry's stored masses), the result, the result on a fresh object, the result of the same call in one "
+                           "fresh interpreter (for every step whose prefix has no editor) and the state after editing the result")
 
 
 def replay(path):
